@@ -794,7 +794,8 @@ fn resource_conservation(rep: &mut Report, n: u32, seed: u64) {
         if k % 3 == 0 {
             t.push('/');
         }
-        t.push_str(&format!("{}", k));
+        // (':' is not in the alphabet: the running number cannot merge with digits of the random text)
+        t.push_str(&format!(":{}", k));
         let r = req((k % 250) as u8, &(k as u32).to_be_bytes(), &t, 0);
         if let Err(p) = guard(|| s.register(&r)) {
             rep.violation(&p.sig(), p.text(), format!("register on {:?}", t));
